@@ -166,6 +166,21 @@ class F:
 
         return ast.fix_missing_locations(T(idx, depth).visit(copy.deepcopy(e)))
 
+    def alias_root(self, idx: int, e: ast.AST) -> str:
+        """follow `a = b` chains (unique reaching definitions that are plain names) from the name used at node idx"""
+        IN = self._rd()
+        cur, at, seen = e, idx, 0
+        while isinstance(cur, ast.Name) and seen < 8:
+            rd = IN.get(at, {}).get(cur.id)
+            if not rd or len(rd) != 1 or cur.id in self._params:
+                break
+            dn = next(iter(rd))
+            val = self._rdgen.get(dn, {}).get(cur.id)
+            if not isinstance(val, ast.Name):
+                break
+            cur, at, seen = val, dn, seen + 1
+        return norm(cur)
+
     def x_at(self, idx: int, e: ast.AST) -> str:
         return norm(self.xe_at(idx, e))
 
